@@ -238,7 +238,9 @@ class Pipeline(Machine):
                 if all(c in "0123456789abcdefABCDEF" for c in payloads[pname]):
                     model["_extra"]["hex_looking_names_used"] += 1
             else:
-                hx = s.bytes(s.choice([1, 5, 24])).hex()
+                # inline hex of 5 bytes or more: it cannot coincide with the name of one of the harness's files
+                # (a hex string that also names an existing file is ambiguous input; the tool then takes the file)
+                hx = s.bytes(s.choice([5, 6, 24])).hex()
                 payloads[pname] = hx
                 pay_exp[pname] = ("hex", hx)
         deps, dep_exp = {}, {}
